@@ -40,7 +40,8 @@ REQUIRED_DIMS = ["N_active<N", "testparticle_type=1", "massless_particles", "var
                  "full_step_leapfrog", "impact_fast_movers", "root_box_layout", "com_offset_moving",
                  "pending_list_realloc(>32)", "N_crosses_128", "step_mercurius", "step_trace", "step_whfast", "step_ias15",
                  "track_energy_offset_merge", "integrate_split_exact_finish_time", "copy_restore_midrun",
-                 "file_restore_midrun", "user_add_remove_midrun", "free_particle_ap", "keep_sorted", "tree_gravity_direct_search", "hybrid_forced_keep_sorted"]
+                 "file_restore_midrun", "user_add_remove_midrun", "free_particle_ap", "keep_sorted", "tree_gravity_direct_search", "hybrid_forced_keep_sorted", "radii_after_add_x_ghost_boxes_x_direct",
+                 "dt!=dt_last_done_x_line_searches", "pass_through_refined_cells"]
 VARIANT = ["0"] * 7      # RmVariant flags (5) + purge-flagged-at-end-of-search, determined in run()
 PURGE = [False]          # fixes/C13-tree-merge-remove-at-boundary.diff applied? (probed in run())
 RESFLAGS = {"merge": "0", "hs": "0"}     # massless guards of the built-in resolvers (probed in run())
@@ -219,9 +220,10 @@ def gen_spec(rng, idx, thorough=False):
             prev = parts_unshuffled[k - 1]
             rel = p["vx"][1]
             p["vx"], p["vy"], p["vz"] = [prev[a] - rel[i] / spec["dt"] for i, a in enumerate(("vx", "vy", "vz"))]
+    if rng.chance(0.25) and integ == "none":
+        # radii assigned after reb_simulation_add (sim.particles[i].r = R): nothing cached at add time may be trusted
+        spec["r_after_add"] = 1
     if spec["collision"] in ("tree", "linetree"):
-        if rng.chance(0.25):
-            spec["r_after_add"] = 1        # radii assigned after reb_simulation_add: max_radius must be rescanned
         spec["ks"] = 0 if rng.chance(0.9) else 1        # sorted removal + tree is rejected by the code (F4)
     if spec["gravity"] == "tree" and spec["ks"] == 1 and rng.chance(0.8):
         spec["ks"] = 0
@@ -230,7 +232,51 @@ def gen_spec(rng, idx, thorough=False):
             spec["nghost"] = [1, 1, 0]
         spec["res"] = ["hs", rng.choice([None, 1.0, 0.5])]
     force_lf = False
-    if collision in ("tree", "linetree") and boundary != "shear" and integ == "none" and rng.chance(0.2):
+    passthrough = False
+    if collision in ("line", "linetree") and boundary != "shear" and integ == "none" and rng.chance(0.3):
+        # pass-through family (bare search): two fast particles whose paths crossed DURING the step just done and that are
+        # far apart now, each with slow bystanders next to its current position (refined cells).  The state is the one an
+        # adaptive integrator leaves behind: the step proposed next (sim.dt) differs from the step done (dt_last_done)
+        passthrough = True
+        del parts[:]
+        hid2 = 7000
+        dtv = spec["dt"]
+        for _ in range(rng.choice([1, 1, 2])):
+            X = [rng.uniform(-L / 10, L / 10) for _ in range(3)]
+            rr = [rng.loguniform(0.004, 0.02) * L for _ in range(2)]
+            f = rng.uniform(0.2, 0.8)
+            bo = [rng.normal() for _ in range(3)]
+            bn = math.sqrt(sum(x * x for x in bo)) or 1.0
+            b = rng.uniform(0.0, 0.8) * (rr[0] + rr[1])
+            for k in range(2):
+                e = [rng.normal() for _ in range(3)]
+                en = math.sqrt(sum(x * x for x in e)) or 1.0
+                travel = [x / en * rng.uniform(0.15, 0.3) * L for x in e]          # v*dt
+                cross = [X[a] + (bo[a] / bn * b if k else 0.0) for a in range(3)]
+                pe = [cross[a] + f * travel[a] for a in range(3)]                  # x_end = x(tau*) + tau* v, tau* = f dt
+                hid2 += 7
+                parts.append(dict(id=hid2, x=pe[0], y=pe[1], z=pe[2], vx=travel[0] / dtv, vy=travel[1] / dtv, vz=travel[2] / dtv,
+                                  m=rng.loguniform(1e-2, 1e2), r=rr[k]))
+                for _b in range(rng.choice([1, 2])):
+                    hid2 += 7
+                    q = [rng.normal() for _ in range(3)]
+                    qn = math.sqrt(sum(x * x for x in q)) or 1.0
+                    bd = rng.uniform(0.02, 0.07) * L
+                    parts.append(dict(id=hid2, x=pe[0] + q[0] / qn * bd, y=pe[1] + q[1] / qn * bd, z=pe[2] + q[2] / qn * bd,
+                                      vx=0.0, vy=0.0, vz=0.0, m=1.0, r=rng.choice([0.0, 1e-3 * L])))
+        for p in parts:
+            for a in "xyz":
+                p[a] = max(-0.49 * E[a], min(0.49 * E[a], p[a]))
+        rng.shuffle(parts)
+        spec["n_active"] = None
+        spec["parts"] = parts
+        spec["gravity"] = "none"
+        spec["use_step"] = 0
+        spec["r_after_add"] = 0
+    if integ == "none" and not spec["use_step"] and rng.chance(0.7):
+        # bare search in the state an adaptive integrator leaves: dt (next step) != dt_last_done (step done)
+        spec["dt_next"] = spec["dt"] * rng.choice([0.01, 0.05, 0.2, 0.5, 2.0, 4.0])
+    if not passthrough and collision in ("tree", "linetree") and boundary != "shear" and integ == "none" and rng.chance(0.2):
         # impact family: fast movers arriving from distant cells of the tree within one step, each with a slow
         # bystander next to its mid-step position (where the tree was last brought up to date) so that those cells
         # are refined; the pair overlaps only at the end of the step
@@ -267,7 +313,7 @@ def gen_spec(rng, idx, thorough=False):
         spec["parts"] = parts
         spec["gravity"] = "none"
         force_lf = True
-    if integ == "none" and spec["gravity"] == "none" and boundary != "shear" and (force_lf or rng.chance(0.35)):
+    if integ == "none" and spec["gravity"] == "none" and boundary != "shear" and not passthrough and "dt_next" not in spec and (force_lf or rng.chance(0.35)):
         # a full reb_simulation_step with a moving integrator: the designed configuration is the one at the END of
         # the step (positions are moved back by v*dt), so particles arrive from other cells of the tree
         spec["integrator"] = "leapfrog"
@@ -351,6 +397,8 @@ def make_sim(W, spec):
     sim.collision_resolve_keep_sorted = spec["ks"]
     sim.t = spec["t0"]
     sim.dt_last_done = spec["dt"]
+    if "dt_next" in spec and not spec["use_step"]:
+        sim.dt = spec["dt_next"]
     sim.rand_seed = spec["seed"]
     if "mcv" in spec:
         sim.minimum_collision_velocity = spec["mcv"]
@@ -893,6 +941,12 @@ def scenario(c, W, exe_lines, spec, tag, stats):
     if spec["integrator"] == "leapfrog" and any(p["id"] > 5000 for p in spec["parts"]): dim("impact_fast_movers")
     if spec.get("nroot", [1, 1, 1]) != [1, 1, 1]: dim("root_box_layout")
     if spec.get("com_offset"): dim("com_offset_moving")
+    if spec.get("r_after_add") and col in ("direct", "line") and any(g[:3] != (0.0, 0.0, 0.0) for (_, _, g, _, _, _, _) in A["calls"]):
+        dim("radii_after_add_x_ghost_boxes_x_direct")
+    if "dt_next" in spec and not spec["use_step"] and col in ("line", "linetree") and reported:
+        dim("dt!=dt_last_done_x_line_searches")
+    if any(p["id"] > 7000 and p["id"] < 9000 for p in spec["parts"]) and reported:
+        dim("pass_through_refined_cells")
     if len(reported) > 32: dim("pending_list_realloc(>32)")
     if len(stateA) >= 128 > B["N"]: dim("N_crosses_128")
     if path.startswith("sorted") and removed_any: dim("keep_sorted")
